@@ -4,6 +4,8 @@
 # AddressSanitizer + UBSan in *recoverable* mode.  The shared "asan" variant is built with
 # -fno-sanitize-recover=undefined; four allocation-independent UB sites on the fault-free TLS path
 # (aesGCM.c:322, psbuf.h:174/505, tls.c:968) then abort every handshake before a single fault is injected.
+# Frame pointers are kept (the release flags add -fomit-frame-pointer after CFLAGS_EXTRA) so that the
+# injector can record the call stack of every live block cheaply.
 set -e
 DEST="$1"
 REPO="${VERIF_REPO:-/repo}"
@@ -16,7 +18,7 @@ rsync -a --delete --exclude '.git' --exclude '*.o' --exclude '*.a' --exclude '*.
 cd "$DEST"
 EXTRA="-DMATRIXSSL_VERIF -fsanitize=address,undefined -fno-omit-frame-pointer -g"
 make check-config >/dev/null 2>&1 || true
-if ! make libs -j8 CFLAGS_EXTRA="$EXTRA" > "$DEST/verif-build.log" 2>&1; then
+if ! make libs -j8 CFLAGS_EXTRA="$EXTRA" CFLAGS_OMIT_FRAMEPOINTER= > "$DEST/verif-build.log" 2>&1; then
   echo "BUILD FAILED (see $DEST/verif-build.log)"; tail -30 "$DEST/verif-build.log"; exit 2
 fi
 test -f matrixssl/libssl_s.a && test -f crypto/libcrypt_s.a && test -f core/libcore_s.a
